@@ -31,6 +31,7 @@ type Proc struct {
 	closureOf     map[types.Object]*ClosureVal
 	rangeIdx      map[int]*types.Var
 	visited       map[int]*types.Var
+	iters         map[int]*types.Var
 	visitedSort   map[*types.Var]Sort
 	nameCount     map[string]int
 	params        []*types.Var
@@ -57,7 +58,7 @@ func newProc(c *Ctx, fi *FuncInfo) *Proc {
 		heapEntry: map[string]*Term{}, maxStates: 64,
 		boxed: map[*types.Var]bool{}, capturedByRef: map[*types.Var]bool{},
 		closureOf: map[types.Object]*ClosureVal{}, rangeIdx: map[int]*types.Var{},
-		visited: map[int]*types.Var{}, visitedSort: map[*types.Var]Sort{},
+		visited: map[int]*types.Var{}, iters: map[int]*types.Var{}, visitedSort: map[*types.Var]Sort{},
 		nameCount: map[string]int{}, cbParams: map[string]*types.Var{}, lets: map[string]Val{}, cbAlias: map[*types.Var]*types.Var{}, assertFired: map[*Clause]bool{}}
 }
 
@@ -554,6 +555,10 @@ func (p *Proc) evalSpecCall(ec *ectx, name string, call *ast.CallExpr) (Val, boo
 	case "resolved":
 		id := call.Args[0].(*ast.Ident)
 		o := p.cbParams[id.Name]
+		if _, isCalleeParam := ec.extra[id.Name]; isCalleeParam && (o == nil || ec.extra[id.Name].T != ec.st.vars[o]) {
+			// a callee's own accounting, seen from a call site: unconstrained
+			return Val{T: p.freshConst("resolved_"+id.Name, SInt), Typ: types.Typ[types.Int]}, true
+		}
 		if o == nil {
 			p.failf(call, "%s: resolved(): no callback %s", ec.where, id.Name)
 		}
